@@ -24,6 +24,13 @@ thread_local! {
 
 #[cfg(rash_verif)]
 thread_local! {
+    /// Verification hook: the usage patterns `parse_usage` read from the help text (None: no usage section).
+    pub static VERIF_USAGES: std::cell::RefCell<Option<Vec<String>>> =
+        const { std::cell::RefCell::new(None) };
+}
+
+#[cfg(rash_verif)]
+thread_local! {
     /// Verification hook: normalised arguments and option descriptors (kind, short, long, default)
     /// of the last `parse` call: the inputs of its final matching stage.
     #[allow(clippy::type_complexity)]
@@ -37,6 +44,8 @@ thread_local! {
 /// Supports help subcommand to print help and exit.
 pub fn parse(file: &str, args: &[&str]) -> Result<Value> {
     let help_msg = parse_help(file);
+    #[cfg(rash_verif)]
+    VERIF_USAGES.with(|t| *t.borrow_mut() = parse_usage(&help_msg));
     let usages = match parse_usage(&help_msg) {
         Some(usages) => usages,
         None => return Ok(json!({})),
